@@ -173,6 +173,50 @@ def gen_cases(ctx, n_random):
                                         resp2=resp_line(rng, 2, mem)),
                               {"mem": mem, "kind": "lazy-upload+pipeline", "how": "mark", "lvl": 0}))
                 k += 1
+    # authentication API exercised by the handler on attacker-controlled Authorization headers, with a genuine nonce
+    import base64
+    for i in range(300 if ctx.tier == "quick" else 3000):
+        mem = rng.choice([1024, 4096, 32768])
+        lvl = rng.randint(-3, 3)
+        # mostly-valid credentials: start from a well-formed set and vary one or two fields, so that the
+        # deep stages of the check (nonce validation, response decoding, hashing) are actually reached
+        f = {"algo": rng.choice([b"MD5", b"SHA-256", b"SHA-512-256"]), "qop": b"auth", "resp": b"a" * 64, "user": b"u",
+             "nc": b"00000001", "cnonce": b"x"}
+        for which in rng.sample(["algo", "qop", "resp", "user", "nc", "cnonce", "none"], rng.choice([1, 1, 2])):
+            if which == "algo":
+                f["algo"] = rng.choice([b"foo", b"\"SHA-256\"", b"sha-256", b"MD5-sess", b"", b"SHA-256 ", b"\"SHA-512-25\\6\""])
+            elif which == "qop":
+                f["qop"] = rng.choice([b"foo", b"auth-int", b"\"auth\"", b""])
+            elif which == "resp":
+                f["resp"] = rng.choice([b"a" * n for n in (0, 1, 31, 32, 33, 63, 65, 66, 96, 127, 128, 129, 200, 300)] + [b"zz" * 32, b"\\a" * 64, b"\\a" * 32])
+            elif which == "user":
+                f["user"] = rng.choice([b"u\\\"x", b"\xc3\xa9", b"a" * 300, b""])
+            elif which == "nc":
+                f["nc"] = rng.choice([b"ffffffff", b"1", b"zz", b"", b"00000002"])
+            elif which == "cnonce":
+                f["cnonce"] = rng.choice([b"", b"c" * 200])
+        algo, qop, resp, user = f["algo"], f["qop"], f["resp"], f["user"]
+        parts = [b'username="' + user + b'"', b'realm="r"', b'nonce="@N@"', b'uri="/auth"', b'response="' + resp + b'"',
+                 b"nc=" + f["nc"], b'cnonce="' + f["cnonce"] + b'"']
+        if algo:
+            parts.append(b"algorithm=" + algo)
+        if qop:
+            parts.append(b"qop=" + qop)
+        if rng.random() < 0.3:
+            parts.append(rng.choice([b"userhash=true", b'username*=UTF-8\'\'%c3%a9', b'opaque="' + b"o" * 100 + b'"']))
+        rng.shuffle(parts)
+        hdr = b"Digest " + rng.choice([b", ", b",", b" ,  "]).join(parts)
+        if rng.random() < 0.25:
+            hdr = rng.choice([b"Basic " + base64.b64encode(rng.choice([b"u:p", b"nocolon", b":", b"a" * 200 + b":b"])),
+                              b"Basic !!!!", b"Basic", b"Digest", b"Digest ,,,", b"Basic QQ== x"])
+        if rng.random() < 0.2:
+            hdr = mutate(hdr, rng)
+        req2 = b"GET /auth HTTP/1.1\r\nHost: h\r\nAuthorization: " + hdr + b"\r\n\r\n"
+        L = ["case au%d" % i, "cfg mode=%s mem=%d lvl=%d auth=1" % (rng.choice(["select", "epoll"]), mem, lvl), "start",
+             "arrive 0 1", "arrive 1 2", "send 1 " + hx(GOOD), "round",
+             "send 0 " + hx(b"GET /auth HTTP/1.1\r\nHost: h\r\n\r\n"), "rounds 6", "arrive 2 3",
+             "sendn 2 " + hx(req2), "rounds 12", "send 1 " + hx(GOOD), "rounds 4", "stop"]
+        cases.append((L, {"mem": mem, "kind": "auth-api", "how": "whole", "lvl": lvl}))
     # header-heavy, bodies, malformed
     for i in range(n_random):
         mem = rng.choice(mems)
